@@ -18,7 +18,7 @@ TEXT = ("G1: in reload, refresh and reload_until every call with a (transitive) 
         "replay_stage / DataStorage::replay_stage, and replayed revisions are added staged. G5 (who-may-write): the "
         "staging flags are set only by or-ing the argument on insertion and cleared only by commit / unstage; "
         "has_staging is an any-fold over all trees. The tree-level flag is raised only behind the absence test of the revision being inserted; replay_stage drops no record it recognised (G4c). G3b: Melda::unstage judges a tree empty only after that tree was rolled back. Does not decide exact restoration over arbitrary staged sets."
-        " G4d: an update record is replayed under Some(previous) with a revision built on it.")
+        " G4d: an update record is replayed under Some(previous) with a revision built on it. G5 also requires every answer of Melda::has_staging to pass the fold over the trees.")
 TECHNIQUE = 'static analysis over rustc MIR: staging-guard dominance on every state-writing public operation, completeness of unstage, export/replay table agreement, insertion independent of tree content'
 TRUSTED = ["rustc nightly MIR", "effect summaries over the resolved call graph", "C01/L2 (unstage re-validates)", "C09/O2"]
 
@@ -537,6 +537,18 @@ def run(facts, res):
         res.instance("G5", "Melda::has_staging = any(tree.has_staging()) over the whole document map: %s" % ok, hs.loc())
         if not ok:
             res.violation("G5", "has_staging|not-any-fold", "Melda::has_staging is not an any-fold of RevisionTree::has_staging over all trees", hs.loc())
+        # ... and every answer comes from that fold: no return of has_staging is reachable without passing the fold (a replica-level
+        # "dirty" flag that some staging operation forgets to raise answers `nothing staged` while a resolution is staged: reload and
+        # refresh then drop it silently and commit reports nothing to do)
+        hcfg = cfg_of(hs)
+        folds = [bi for bi, tt in hs.calls() if tt.callee is not None and tt.callee.name in ("any", "all", "find_any", "position_any", "fold", "try_fold", "count", "for_each", "try_for_each")]
+        rets_ = [blk.idx for blk in hs.blocks if not blk.cleanup and blk.term.kind == "return"]
+        byp = [r_ for r_ in rets_ if folds and hcfg.reaches(0, r_, avoid=set(folds)) and 0 not in folds]
+        res.instance("G5", "Melda::has_staging: every answer passes the fold over the trees: %s" % (not byp and bool(folds)), hs.loc())
+        if byp and folds:
+            res.violation("G5", "has_staging|answer-bypasses-the-fold",
+                          "Melda::has_staging can answer without visiting the revision trees (a shortcut on replica-level state): staged changes made "
+                          "by an operation that does not maintain that state are invisible to commit, reload and refresh", hs.loc())
 
 
 def thorough(res):
